@@ -3,6 +3,7 @@ import ScVerif.C10.Bus
 import ScVerif.C10.DrvSys
 import ScVerif.C10.DrvLate
 import ScVerif.C10.DrvWindow
+import ScVerif.C10.DrvMerge
 /-!
 Driver handler for C10: an *acceptor* over the bus model (K4 tie) and the pipeline model.
 
@@ -192,6 +193,7 @@ Requests:
 * `pinit …` / `pop <observed> <macro…>` → the same protocol for the composed model (`DrvSys.lean`)
 * `late <sync> <uo> <bp> <pre> <del|cancel> <observed>` → acceptor of the late-subscription model (`DrvLate.lean`)
 * `window <locked> <uo> <bp> <pre> <observed>` → acceptor of the seed-and-register window model (`DrvWindow.lean`)
+* `mseq <kinds>` → the change type `mergeChanges` leaves held after folding the letters a/u/r/p, or `none` (`DrvMerge.lean`)
 -/
 def handleS (st : DState) (toks : List String) : DState × String :=
   match toks with
@@ -220,6 +222,7 @@ def handleS (st : DState) (toks : List String) : DState × String :=
     ({ st with sfrontier := fr }, ans)
   | "late" :: rest => (st, handleLate rest)
   | "window" :: rest => (st, handleWindow rest)
+  | "mseq" :: rest => (st, handleMerge rest)
   | _ => (st, "!bad-op")
 
 end ScVerif.C10
